@@ -17,7 +17,8 @@ TECHNIQUE = "bounded symbolic execution (symx + z3) of the real heading/section 
 LEVEL_TEXT = ("For every sequence of up to K headings with symbolic levels 1-6 (the tag text is a symbolic string), each placed at top level, inside a block quote, inside a list item or "
               "inside a directive-style nested parse (with and without match_titles), optionally interleaved with paragraphs, and for heading-offset includes with symbolic offset, the real "
               "renderer's doctree is compared with the stack-discipline specification: parent relation, source order, exactly one non-consecutive-heading warning per upward skip "
-              "(attached outside the new section), rubrics with recorded level for nested headings, unchanged level map after nested renders.")
+              "(attached outside the new section), rubrics with recorded level for nested headings, unchanged level map after nested renders. Directive bodies are nested parses into topic / sidebar / note / "
+              "figure nodes; headings inside a quote inside a match_titles parse stay rubrics; offset includes contain real directives (nested renders with offset 0).")
 LEVEL_NOTE = ("Degenerate in the level dimension: levels become dict keys in the renderer and are case-split by the engine (solver-mediated exhaustive enumeration of level sequences and placements). "
               "Stubs: markdown-it's tokenizer is not run; tokens are built by the harness; md.parse is stubbed for nested renders. Real docutils nodes underneath.")
 BUDGET_S = {"quick": 150, "thorough": 1200}
